@@ -959,10 +959,22 @@ fn setup_masked(sc: &Sc, ctx: &mut Ctx, hooks: bool, only: Option<([bool; 16], [
         if sc.shrunk {
             // shrunk below, as the last thing that touches memory before the step
             ax.mem_init_area(DATA, Rng::new(sc.data_seed).bytes(DATA_LEN as usize + 0x200)).map_err(|e| e.to_string())?;
+        } else if sc.data_seed % 4 == 3 {
+            // a host-chosen name, long and not ASCII (error texts name the area an access failed in)
+            let name = match (sc.data_seed >> 2) % 3 {
+                0 => format!("{}€uro-zone", "x".repeat(31)),
+                1 => format!("{}ключ{}", "n".repeat(63), "ß".repeat(40)),
+                _ => "名".repeat(50),
+            };
+            ax.mem_init_area_named(DATA, Rng::new(sc.data_seed).bytes(DATA_LEN as usize), Some(name)).map_err(|e| e.to_string())?;
         } else {
             ax.mem_init_area(DATA, Rng::new(sc.data_seed).bytes(DATA_LEN as usize)).map_err(|e| e.to_string())?;
         }
-        ax.mem_init_area(STACK, Rng::new(sc.data_seed ^ 5).bytes(STACK_LEN as usize)).map_err(|e| e.to_string())?;
+        if sc.data_seed % 8 == 5 {
+            ax.mem_init_area_named(STACK, Rng::new(sc.data_seed ^ 5).bytes(STACK_LEN as usize), Some(format!("{}名前", "s".repeat(30)))).map_err(|e| e.to_string())?;
+        } else {
+            ax.mem_init_area(STACK, Rng::new(sc.data_seed ^ 5).bytes(STACK_LEN as usize)).map_err(|e| e.to_string())?;
+        }
         if let Some(at) = prelude_at {
             // RET (ax pops by RSP += 8, then reads) returning to the instruction under test with RSP as specified
             let g = sc.gpr.get(6).copied().unwrap_or(0);
